@@ -47,9 +47,10 @@ class Rig:
         self.cfg = cfg
         self.base = tempfile.mkdtemp(prefix='c08-', dir=SCRATCH_ROOT)
         share = os.path.join(self.base, 'shared')
-        dirs = [{'path': os.path.join(share, 'pub'), 'share_mode': cfg.get('pub', 'everyone')},
-                {'path': os.path.join(share, 'fr'), 'share_mode': cfg.get('fr', 'friends')},
-                {'path': os.path.join(share, 'us'), 'share_mode': cfg.get('us', 'users'), 'users': ['u1']}]
+        # every directory may carry a users list whatever its mode (the list is kept when the mode changes)
+        dirs = [{'path': os.path.join(share, 'pub'), 'share_mode': cfg.get('pub', 'everyone'), 'users': cfg.get('pub_users', [])},
+                {'path': os.path.join(share, 'fr'), 'share_mode': cfg.get('fr', 'friends'), 'users': cfg.get('fr_users', [])},
+                {'path': os.path.join(share, 'us'), 'share_mode': cfg.get('us', 'users'), 'users': cfg.get('us_users', ['u1'])}]
         blocked = {}
         if cfg.get('block'):
             blocked = {'u2': int(BlockingFlag[cfg['block']])}
@@ -274,6 +275,15 @@ def configurations(tier):
     for nest in nests:
         for friends in (['u1', 'u2'], ['u1']):
             out.append({'pub': 'everyone', 'fr': 'friends', 'friends': friends, 'block': None, 'nest': [list(o) for o in nest]})
+    # a users list left on a directory that is shared with friends / everyone; a friend missing from a users list
+    for us_mode in ('friends', 'everyone', 'users'):
+        for us_users in (['u3'], ['u1', 'u3'], []):
+            for friends in (['u1', 'u2'], ['u1']):
+                out.append({'pub': 'everyone', 'fr': 'friends', 'us': us_mode, 'us_users': us_users, 'fr_users': ['u3'],
+                            'friends': friends, 'block': None})
+    for phrase in ('friends', 'FRIENDS', 'users.mp3', 'song'):        # phrases that hit files locked for the asker
+        for friends in (['u1', 'u2'], ['u1'], []):
+            out.append({'pub': 'everyone', 'fr': 'friends', 'friends': friends, 'block': None, 'phrase': phrase})
     for phrase in ('live', 'LIVE', 'Li', 'SONG L', 'live set', 'Loud'):
         out.append({'pub': 'everyone', 'fr': 'friends', 'friends': ['u1', 'u2'], 'block': None, 'phrase': phrase})
     return out
